@@ -221,7 +221,21 @@ func Chains(j *job.Job, s *job.Sink) {
 		// merged, but a bad restriction on the second one is an error all the same.
 		unionLast, unionParent, unionExtra := false, "", ""
 		var b strings.Builder
-		b.WriteString("module m { namespace \"urn:m\"; prefix m;\n")
+		// One chain in five of depth two and more is spread over modules: the first level lives
+		// in module xa, which m imports under the prefix p, and a twin module imports another
+		// module, xb, under the same prefix p; xb defines a typedef of the same name that is the
+		// unrestricted base type, and the twin restricts p:<that name> to the whole range of
+		// the base type, written out. Each p:t0 denotes the typedef of the module imported
+		// under p in the file it is written in, so both are judged against their own parent.
+		twin := depth >= 2 && r.Intn(5) == 0
+		twinName := []string{"a2", "m2"}[r.Intn(2)]
+		var xa strings.Builder
+		baseSet := cur
+		if twin {
+			b.WriteString("module m { namespace \"urn:m\"; prefix m; import xa { prefix p; }\n")
+		} else {
+			b.WriteString("module m { namespace \"urn:m\"; prefix m;\n")
+		}
 		prevName := base
 		expectErr := ""
 		var restr []string
@@ -303,10 +317,15 @@ func Chains(j *job.Job, s *job.Sink) {
 				// the last restriction sits on the second of two union members of the same
 				// parent type (see below) instead of in a typedef of its own
 				unionLast, unionParent, unionExtra = true, prevName, extra
+			} else if twin && lvl == 0 {
+				fmt.Fprintf(&xa, "  typedef %s { type %s {%s %s %q; } }\n", name, prevName, extra, kw, str)
 			} else {
 				fmt.Fprintf(&b, "  typedef %s { type %s {%s %s %q; } }\n", name, prevName, extra, kw, str)
 			}
 			prevName = name
+			if twin && lvl == 0 {
+				prevName = "p:" + name
+			}
 		}
 		// One chain in six hangs the leaf's type into a union behind a plain member of the
 		// same name: the two members may compare equal (and be merged), but a bad
@@ -330,7 +349,48 @@ func Chains(j *job.Job, s *job.Sink) {
 			s.Violation(c, j.CaseID(c), "C10.chain", class, detail, map[string]string{"text": text}, map[string]any{"base": base, "fraction_digits": fd})
 		}
 		ms := yang.NewModules()
-		if err := ms.Parse(text, "m.yang"); err != nil {
+		if twin {
+			fdx := ""
+			if base == "decimal64" {
+				fdx = fmt.Sprintf(" { fraction-digits %d; }", fd)
+			}
+			fdr := ""
+			if base == "decimal64" {
+				fdr = fmt.Sprintf(" fraction-digits %d;", fd)
+			}
+			_ = fdr
+			others := [][2]string{
+				{"xa.yang", "module xa { namespace \"urn:xa\"; prefix xa;\n" + xa.String() + "}\n"},
+				{"xb.yang", fmt.Sprintf("module xb { namespace \"urn:xb\"; prefix xb;\n  typedef t0 { type %s%s%s }\n}\n", base, fdx, map[bool]string{true: "", false: ";"}[fdx != ""])},
+				{twinName + ".yang", fmt.Sprintf("module %s { namespace \"urn:%s\"; prefix %s; import xb { prefix p; }\n  typedef t1 { type p:t0 { %s \"%s..%s\"; } }\n  leaf l2 { type t1; }\n}\n", twinName, twinName, twinName, kw, lit(baseSet[0].Lo), lit(baseSet[len(baseSet)-1].Hi))},
+			}
+			r.Shuffle(len(others), func(a, b int) { others[a], others[b] = others[b], others[a] })
+			at := r.Intn(len(others) + 1)
+			bad := false
+			for k, o := range others {
+				if k == at {
+					if err := ms.Parse(text, "m.yang"); err != nil {
+						viol("parse", err.Error())
+						bad = true
+					}
+				}
+				if err := ms.Parse(o[1], o[0]); err != nil {
+					viol("parse", o[0]+": "+err.Error())
+					bad = true
+				}
+			}
+			if at == len(others) {
+				if err := ms.Parse(text, "m.yang"); err != nil {
+					viol("parse", err.Error())
+					bad = true
+				}
+			}
+			if bad {
+				continue
+			}
+			s.Count("chains_across_modules_with_a_twin_prefix", 1)
+			text += "\n(+ xa, xb, " + twinName + ": " + xa.String() + ")"
+		} else if err := ms.Parse(text, "m.yang"); err != nil {
 			viol("parse", err.Error())
 			continue
 		}
